@@ -1,4 +1,209 @@
+import BobModel.Model.SchedInv
 import BobModel.Util.Proto
-open Lean Proto
-/-- stub driver of C06: replaced when the model of this property is built -/
-def main : IO Unit := runPure fun _ => err "unsupported"
+open Lean Proto Sched
+
+/-
+Line protocol of the C06 model driver (stateful: one builder configuration or one semaphore at a time).
+
+builder:
+ {"op":"init","steps":[{"kind":"checkout|build|package","path":n,"vid":n,"sb":n|null,"valid":b,"deps":[..],"bid":[..]}],
+  "cfg":{"par":b,"keepGoing":b,"co0":b,"targets":[..]},
+  "runners":{"kind":"job","recursive":b,"pipe":n} | {"kind":"bounded","n":k}}
+ {"op":"task","t":i}            run task i as asyncio would (until it suspends)  -> {"n":steps,"ev":[..],"s":snapshot}
+ {"op":"fin","t":i,"ok":b}  {"op":"cb"}  {"op":"take"}  {"op":"ret"}             -> {"ok":b,"ev":[],"s":snapshot}
+ {"op":"final"}                                                                  -> {"alldone":b,"disk":[[path,val]..],"s":snapshot}
+semaphore alone:
+ {"op":"sem-init","recursive":b,"pipe":n}
+ {"op":"acquire","t":i} {"op":"resume","t":i} {"op":"release"} {"op":"callback"} {"op":"take"} {"op":"ret"}
+    -> {"r":"got|blocked|ok|ValueError|IndexError|not-enabled", "s":{..}}
+-/
+
+def runFn (s : Nat) (ins : List Nat) : Nat :=
+  ins.foldl (fun a v => (a * 1000003 + v + 1) % 2305843009213693951) (s + 7)
+
+structure DState where
+  P : Project
+  cfg : Cfg
+  n : Nat := 1
+  st0 : Option Sched.St := none
+  st : Option Sched.St
+  sem : Option JobSem.St
+
+def natList (j : Json) (k : String) : List Nat :=
+  (getArr j k).map fun x => (x.getNat?.toOption).getD 0
+
+def stepOf (j : Json) : StepInfo :=
+  { kind := match getStr j "kind" with
+      | "checkout" => .checkout | "build" => .build | _ => .package,
+    path := getNat j "path", vid := getNat j "vid",
+    sandbox := (getObj? j "sb").bind fun v => v.getNat?.toOption,
+    valid := getBool j "valid", deps := natList j "deps", bidDeps := natList j "bid" }
+
+def kindJson : TKind → List Json
+  | .dispatcher => [Json.str "disp", Json.null, Json.null]
+  | .top s => [Json.str "top", toJson s, Json.null]
+  | .cook s co => [Json.str "cook", toJson s, Json.bool co]
+  | .bid s => [Json.str "bid", toJson s, Json.null]
+
+def evJson : Ev → Json
+  | .spawn id k => Json.arr (#[Json.str "spawn", toJson id] ++ (kindJson k).toArray)
+  | .acq _ => Json.arr #[Json.str "acq"]
+  | .got _ => Json.arr #[Json.str "got"]
+  | .rel _ ok => Json.arr #[Json.str "rel", Json.bool ok]
+  | .start _ s => Json.arr #[Json.str "start", toJson s]
+  | .fin _ s ok => Json.arr #[Json.str "end", toJson s, Json.bool ok]
+  | .setRun _ s sk => Json.arr #[Json.str "setrun", toJson s, Json.bool sk]
+  | .pass _ => Json.arr #[Json.str "pass"]
+  | .failRec _ => Json.arr #[Json.str "failrec"]
+  | .done _ ok => Json.arr #[Json.str "done", Json.bool ok]
+
+def semJson (s : JobSem.St) : List (String × Json) :=
+  [("w", toJson s.waitersCnt), ("a", toJson s.acquired), ("tk", toJson s.tokens), ("pipe", toJson s.pipe),
+   ("rd", Json.bool s.reader), ("envheld", toJson s.envHeld), ("v", toJson s.sem.value),
+   ("nwait", toJson s.sem.waiters.length)]
+
+def insertSorted (a : Nat × Bool) : List (Nat × Bool) → List (Nat × Bool)
+  | [] => [a]
+  | b :: r => if a.1 ≤ b.1 then a :: b :: r else b :: insertSorted a r
+
+def sortPairs (l : List (Nat × Bool)) : List (Nat × Bool) := l.foldr insertSorted []
+
+def snapshot (st : Sched.St) : Json :=
+  let sem := match st.runners with
+    | .job s => semJson s
+    | .bounded s _ => [("v", toJson s.value)]
+  let locks := sortPairs ((st.locks.filter fun (_, l) => l.locked).map fun (p, _) => (p, true))
+  let wr := sortPairs (st.wasRun.map fun (p, _, sk) => (p, sk))
+  Json.mkObj (sem ++ [("run", Json.bool st.running), ("err", toJson st.errors),
+    ("locks", Json.arr (locks.map fun (p, _) => toJson p).toArray),
+    ("wasrun", Json.arr (wr.map fun (p, sk) => Json.arr #[toJson p, Json.bool sk]).toArray),
+    ("ncook", toJson st.cookT.length), ("nbid", toJson st.bidT.length)])
+
+def reply (d : DState) (old new : Sched.St) (extra : List (String × Json)) : Json :=
+  Json.mkObj (extra ++ [("ev", Json.arr ((new.trace.drop old.trace.length).map evJson).toArray), ("s", snapshot new),
+    ("inv", toJson (checkAll d.P d.cfg d.n new))])
+
+/-! random exploration of schedules of the model (linear congruential generator, all choices that are enabled) -/
+
+def lcg (x : Nat) : Nat := (x * 6364136223846793005 + 1442695040888963407) % 18446744073709551616
+
+def enabledChoices (P : Project) (cfg : Cfg) (st : Sched.St) (takes : Nat) (failMod : Nat) (rnd : Nat) : List Choice :=
+  let ts := List.range st.tasks.length
+  let tasks := ts.filterMap fun t => if (stepTask P cfg st t).isSome then some (Choice.task t) else none
+  let fins := ts.filterMap fun t =>
+    match (st.task t).ops with
+    | .runWait s none :: _ => some (Choice.finish t (failMod == 0 || (rnd / 7 + s * 13 + t) % failMod != 0))
+    | _ => none
+  let envs : List Choice := match st.runners with
+    | .job s => (if s.reader then [Choice.callback] else []) ++ (if s.pipe > 0 && takes > 0 then [Choice.envTake] else []) ++
+                (if s.envHeld > 0 then [Choice.envReturn] else [])
+    | _ => []
+  tasks ++ fins ++ envs
+
+def choiceJson : Choice → Json
+  | .task t => Json.arr #[Json.str "task", toJson t]
+  | .finish t ok => Json.arr #[Json.str "fin", toJson t, Json.bool ok]
+  | .callback => Json.arr #[Json.str "cb"]
+  | .envTake => Json.arr #[Json.str "take"]
+  | .envReturn => Json.arr #[Json.str "ret"]
+
+/-- one random schedule; returns (violated invariants, schedule so far, deadlocked, steps) -/
+def exploreRun (d : DState) (failMod : Nat) : Nat → Nat → Nat → Sched.St → List Choice → List String × List Choice × Bool × Nat
+  | 0, _, _, _, acc => ([], acc.reverse, false, acc.length)
+  | fuel + 1, rnd, takes, st, acc =>
+    let cs := enabledChoices d.P d.cfg st takes failMod rnd
+    if cs.isEmpty then
+      let bad := checkAll d.P d.cfg d.n st
+      (bad, acc.reverse, !allDone st, acc.length)
+    else
+      let c := cs.getD ((rnd / 65536) % cs.length) (Choice.task 0)
+      match Sched.step d.P d.cfg st c with
+      | none => (["enabled-choice-failed"], (c :: acc).reverse, false, acc.length)
+      | some st' =>
+        let bad := checkAll d.P d.cfg d.n st'
+        if bad.isEmpty then
+          exploreRun d failMod fuel (lcg rnd) (if c == Choice.envTake then takes - 1 else takes) st' (c :: acc)
+        else (bad, (c :: acc).reverse, false, acc.length + 1)
+
+def exploreMany (d : DState) (st0 : Sched.St) (failMod takes maxsteps : Nat) : Nat → Nat → Nat → Nat → Nat → Json × Nat × Nat × Nat
+  | 0, _, dl, term, steps => (Json.null, dl, term, steps)
+  | runs + 1, seed, dl, term, steps =>
+    let (bad, sched, dead, n) := exploreRun d failMod maxsteps seed takes st0 []
+    if !bad.isEmpty then
+      (Json.mkObj [("inv", toJson bad), ("seed", toJson seed), ("schedule", Json.arr (sched.map choiceJson).toArray)], dl, term, steps + n)
+    else if dead then
+      (Json.mkObj [("inv", toJson ["deadlock"]), ("seed", toJson seed), ("schedule", Json.arr (sched.map choiceJson).toArray)], dl + 1, term, steps + n)
+    else exploreMany d st0 failMod takes maxsteps runs (lcg (seed + 12345)) dl (term + 1) (steps + n)
+
+def semReply (r : String) (s : JobSem.St) : Json :=
+  Json.mkObj ([("r", Json.str r)] ++ semJson s ++
+    [("waiters", Json.arr (s.sem.waiters.map fun (t, d) => Json.arr #[toJson t, Json.bool d]).toArray)])
+
+def handle (d : DState) (j : Json) : DState × Json :=
+  match getStr j "op" with
+  | "init" =>
+    let steps := (getArr j "steps").map stepOf
+    let c := j.getObjValD "cfg"
+    let cfg : Cfg := { par := getBool c "par", keepGoing := getBool c "keepGoing", co0 := getBool c "co0",
+                       targets := natList c "targets" }
+    let r := j.getObjValD "runners"
+    let runners : JobSem.Runners :=
+      if getStr r "kind" == "job" then JobSem.Runners.job (JobSem.St.init (getBool r "recursive") (getNat r "pipe"))
+      else JobSem.Runners.bounded { value := getNat r "n", waiters := [] } (getNat r "n")
+    let P : Project := { steps, run := runFn, junk := fun _ => 0 }
+    let st := Sched.init cfg runners
+    ({ d with P, cfg, st := some st, st0 := some st, n := getNat j "n", sem := none }, Json.mkObj [("ok", Json.bool true), ("s", snapshot st)])
+  | "sem-init" =>
+    let s := JobSem.St.init (getBool j "recursive") (getNat j "pipe")
+    ({ d with sem := some s, st := none }, semReply "ok" s)
+  | op =>
+    match d.st, d.sem with
+    | _, some s =>
+      let fin (r : String) (s' : JobSem.St) : DState × Json := ({ d with sem := some s' }, semReply r s')
+      match op with
+      | "acquire" => let (s', a) := s.acquire (getNat j "t"); fin (if a == JobSem.Acq.got then "got" else "blocked") s'
+      | "resume" => if s.woken (getNat j "t") then fin "ok" (s.resume (getNat j "t")) else fin "not-enabled" s
+      | "release" =>
+        match s.release with
+        | .ok s' => fin "ok" s'
+        | .error .valueError => fin "ValueError" s
+        | .error .indexError => fin "IndexError" s
+        | .error .runtimeError => fin "RuntimeError" s
+      | "callback" => if s.reader then fin "ok" s.callback else fin "not-enabled" s
+      | "take" => match s.envTake with | some s' => fin "ok" s' | none => fin "not-enabled" s
+      | "ret" => match s.envReturn with | some s' => fin "ok" s' | none => fin "not-enabled" s
+      | "sem-end" => ({ d with sem := none }, semReply "ok" s)
+      | _ => (d, err "bad-op")
+    | some st, none =>
+      let env (c : Choice) : DState × Json :=
+        match Sched.step d.P d.cfg st c with
+        | some st' => ({ d with st := some st' }, reply d st st' [("ok", Json.bool true)])
+        | none => (d, reply d st st [("ok", Json.bool false)])
+      match op with
+      | "task" =>
+        let (st', n) := runTask d.P d.cfg 100000 true st (getNat j "t")
+        ({ d with st := some st' }, reply d st st' [("n", toJson n)])
+      | "fin" => env (.finish (getNat j "t") (getBool j "ok"))
+      | "cb" => env .callback
+      | "take" => env .envTake
+      | "ret" => env .envReturn
+      | "explore" =>
+        match d.st0 with
+        | none => (d, err "no-state")
+        | some st0 =>
+          let (v, dl, term, steps) := exploreMany d st0 (getNat j "failmod") (getNat j "takes") (getNat j "maxsteps")
+            (getNat j "runs") (getNat j "seed") 0 0 0
+          (d, Json.mkObj [("violation", v), ("deadlocks", toJson dl), ("terminal", toJson term), ("steps", toJson steps)])
+      | "final" =>
+        let alldone := st.tasks.all fun x => x.done
+        (d, Json.mkObj [("alldone", Json.bool alldone),
+          ("disk", Json.arr (st.disk.map fun (p, v) => Json.arr #[toJson p, toJson v]).toArray),
+          ("ntasks", toJson st.tasks.length),
+          ("kinds", Json.arr (st.tasks.map fun x => Json.arr (kindJson x.kind).toArray).toArray),
+          ("inv", toJson (checkAll d.P d.cfg d.n st)), ("s", snapshot st)])
+      | _ => (d, err "bad-op")
+    | none, none => (d, err "no-state")
+
+def main : IO Unit :=
+  run DState { P := { steps := [], run := runFn, junk := fun _ => 0 },
+               cfg := { par := true, keepGoing := false, co0 := false, targets := [] }, st := none, sem := none } handle
